@@ -333,8 +333,8 @@ PROPS = {
     'C02': dict(suites=[('serve', 4000, 120000)], cmps=[C('serve', 'full', 'tie')]),
     'C03': dict(suites=[('serve', 6000, 150000)], cmps=[C('serve', 'c03', 'tie')]),
     'C04': dict(suites=[('validate', 3000, 100000), ('names', 300, 20000), ('lex', 1000, 20000)],
-                cmps=[C('validate', 'accept', 'tie'), C('names', 'full', 'tie'), C('lex', 'full', 'tie', only=('pattern',))]),
-    'C05': dict(suites=[('validate', 4000, 150000)], cmps=[C('validate', 'full', 'tie')]),
+                cmps=[C('validate', 'accept', 'spec'), C('names', 'full', 'tie'), C('lex', 'full', 'tie', only=('pattern',))]),
+    'C05': dict(suites=[('validate', 6000, 150000)], cmps=[C('validate', 'full', 'spec')]),
     'C06': dict(suites=[('roundtrip', 1500, 60000), ('history', 150, 4000), ('validate', 2000, 50000)],
                 cmps=[C('roundtrip', 'full', 'spec'), C('history', 'dec', 'tie'), C('validate', 'full', 'tie')]),
     'C07': dict(suites=[('history', 100, 2000)], cmps=[C('history', 'dec', 'tie')]),
